@@ -16,6 +16,9 @@ def jobs(tier, s0):
                     out.append((_scn(n, proto, cycles=3, seed=sd, runner='c12', obj=obj), {'d': 0}))
         out.append((_scn(n, 'cont3z', cycles=2, seed=s0, runner='c12'),
                     {'d': 1, 'range': 'init' if tier == 'quick' else 'all'}))
+        # longer runs (states that take several generations to appear, e.g. recovered / aged / exhausted agents)
+        for sd in range(s0, s0 + (4 if tier == 'quick' else 8)):
+            out.append((_scn(n, 'cont3z', cycles=12, seed=sd, runner='c12'), {'d': 0}))
         # every accepted one-parameter deviation of an algorithm parameter (rarely used strategies / branches)
         for f, v in registry.param_deviations(n):
             out.append((_scn(n, 'cont3z', cycles=3, seed=s0, runner='c12', over={f: v}), {'d': 0}))
